@@ -132,6 +132,20 @@ def check_window(c, clr, D, rows, W, name, bal, div, w, symm):
                    f"as_pixels(join={join}) balanced column of window {w} (column {name}) != raw*w1*w2",
                    {"got": gotb[:20], "want": refb[:20]})
             return False
+        # the same query keeping the pixel ids as row labels: same rows, same values, labels = stored row numbers
+        dfi = clr.matrix(as_pixels=True, join=join, ignore_index=False, **kw)[i0:i1, j0:j1]
+        goti = dfi["balanced"].tolist()
+        oki = len(goti) == len(refb) and all(
+            (np.isnan(x) and np.isnan(y)) or np.isclose(x, y, rtol=1e-12, atol=0) for x, y in zip(goti, refb))
+        if symm is False or True:
+            ids = {(r[0], r[1]): k for k, r in enumerate(rows)}
+            if not join and oki:
+                oki = list(dfi.index) == [ids[(a, b)] for a, b in zip(dfi["bin1_id"].tolist(), dfi["bin2_id"].tolist())]
+        if not oki:
+            c.fail(f"balanced-pixels-wrong:ignore_index=False:{'divisive' if divisive else 'multiplicative'}",
+                   f"as_pixels(join={join}, ignore_index=False) of window {w} (column {name}): balanced values / row "
+                   f"labels differ from the default query", {"got": goti[:20], "want": refb[:20], "index": list(dfi.index)[:20]})
+            return False
     c.ctx.oracle_evals += 4
     return True
 
